@@ -358,8 +358,9 @@ def slist_method(I, l, name):
             P = I_.prover
             P.assume(z3.And(p >= 0, p < l.length, z3.Select(l.elt, p) == t))
             P.assume(z3.ForAll([j], z3.Implies(z3.And(j >= 0, j < p), z3.Select(l.elt, j) != t)))
-            ne = I_.fresh("rm_elt", z3.ArraySort(z3.IntSort(), Val))
-            P.assume(z3.ForAll([j], z3.Select(ne, j) == z3.If(j < p, z3.Select(l.elt, j), z3.Select(l.elt, j + 1))))
+            old = l.elt
+            # defining form (a lambda, not a quantified axiom: no matching loop on j+1)
+            ne = z3.Lambda([j], z3.If(j < p, z3.Select(old, j), z3.Select(old, j + 1)))
             I_.log_write(("slist", l))
             l.removed_at = p
             l.elt = ne
